@@ -95,8 +95,19 @@ def rule_pairing(ctx):
     fb = ctx.fn("aiokafka.protocol.api.RequestStruct.build_request_header")
     cb = ctx.cfg(fb)
     t = [x for x in cb.nodes if x.kind == "test" and unparse(x.ast) == "self.FLEXIBLE_VERSION"]
-    ok = len(t) == 1 and any(call_name(n.ast) == "RequestHeader_v2" and cb.dominated_by_branch(t[0], "T", n) for n in cb.nodes if n.kind == "call") and \
-        any(call_name(n.ast) == "RequestHeader_v1" and cb.dominated_by_branch(t[0], "F", n) for n in cb.nodes if n.kind == "call")
+    ok = len(t) == 1
+    if ok:
+        def classes_on(label):
+            out = set()
+            for n in cb.nodes:
+                if n.ast is not None and n.kind in ("call", "stmt", "return", "store") and cb.dominated_by_branch(t[0], label, n):
+                    src_ = n.stmt if n.kind in ("stmt", "store") and n.stmt is not None else n.ast
+                    out |= {x.id for x in ast.walk(src_) if isinstance(x, ast.Name) and x.id.startswith("RequestHeader_v")}
+            return out
+        # the flexible arm names only the v2 header, the other arm only the v1 header, and whatever they chose is what gets constructed
+        rets = [n for n in cb.nodes if n.kind == "return" and isinstance(n.ast.value, ast.Call)]
+        ok = classes_on("T") == {"RequestHeader_v2"} and classes_on("F") == {"RequestHeader_v1"} and bool(rets) and \
+            all(cb.dominates(t[0], r) for r in rets)
     ctx.ob(R, fb, fb.node, ok, "request header form does not follow FLEXIBLE_VERSION", text="request-header-form")
     fp = ctx.fn("aiokafka.protocol.api.RequestStruct.parse_response_header")
     cp = ctx.cfg(fp)
@@ -155,6 +166,49 @@ def _compactness(t):
     return "mixed", tagged
 
 
+def _select_via_helper(ctx, R, fi, c, builds, chooser):
+    cc = ctx.cfg(chooser)
+    rng = [d for d in c.nodes if d.kind == "stmt" and isinstance(d.ast, ast.Assign) and isinstance(d.ast.targets[0], ast.Tuple) and unparse(d.ast.value) == "versions[api_key]"]
+    rng = ctx.one(rng, "min_version, max_version = versions[api_key]")
+    mn, mx = [unparse(x) for x in rng.ast.targets[0].elts]
+    kd = local_defs(c, "api_key")
+    ctx.ob(R, fi, rng, len(kd) == 1 and unparse(def_value(kd[0])) == "self.API_KEY", "range looked up under another key", text="range-key")
+    call = ctx.one(c.calls(attr=chooser.name), f"call of {chooser.name} in prepare")
+    ps = chooser.params()[1:]
+    okc = [unparse(a) for a in call.ast.args] == [mn, mx] and len(ps) == 2 and c.dominates(rng, call)
+    ctx.ob(R, fi, call, okc, "the class chooser is not given the broker's (min, max) of this API key", text="chooser-args")
+    pmn, pmx = (ps + ["?", "?"])[:2]
+    loop = [n for n in ast.walk(chooser.node) if isinstance(n, ast.For) and unparse(n.iter) == "reversed(self._CLASSES)"][0]
+    lv = unparse(loop.target)
+    rets = [r for r in cc.nodes if r.kind == "return" and r.ast.value is not None and not (isinstance(r.ast.value, ast.Constant) and r.ast.value.value is None)]
+    tests = [t for t in cc.nodes if t.kind == "test" and isinstance(t.ast, ast.Compare) and len(t.ast.ops) == 2 and all(isinstance(o, ast.LtE) for o in t.ast.ops)
+             and unparse(t.ast.left) == pmn and unparse(t.ast.comparators[1]) == pmx and unparse(t.ast.comparators[0]) == f"{lv}.API_VERSION"]
+    ok = bool(rets) and all(unparse(r.ast.value) == lv and any(cc.dominated_by_branch(t, "T", r) for t in tests) for r in rets)
+    ctx.ob(R, chooser, chooser.node, ok, f"{chooser.name}() can hand out a struct class without `{pmn} <= class.API_VERSION <= {pmx}`: a version outside the broker's range would be put in the header", text="in-range:" + lv)
+    ctx.ob(R, chooser, chooser.node, all(any(a is loop for a, _r in r.within) for r in rets), "candidates are not scanned highest version first (first match returned from the reversed scan)", text="highest-first:" + lv)
+    res = unparse(call.stmt.targets[0]) if isinstance(call.stmt, ast.Assign) else None
+    for b in builds:
+        a0 = unparse(arg_of(b.ast, 0))
+        if c.dominates(rng, b):
+            from ..rulekit import none_tests
+            nt = none_tests(c, res) if res else []
+            ok = a0 == res and isinstance(b.stmt, ast.Return) and bool(nt) and c.dominated_by_branch(nt[0][0], nt[0][2], b) and \
+                any(n.kind == "raise" for n in c.reachable([m for m, l in nt[0][0].succ if l == nt[0][1]], exc=False, include_src=True))
+            ctx.ob(R, fi, b, ok, "prepare() does not build exactly the class the chooser returned (raising when it found none)", text="builds-chosen")
+        else:
+            ut = [t for t in c.nodes if t.kind == "test" and isinstance(t.ast, ast.Compare) and isinstance(t.ast.ops[0], ast.NotIn) and unparse(t.ast.comparators[0]) == "versions"]
+            at = [t for t in c.nodes if t.kind == "test" and unparse(t.ast) == "self.ALLOW_UNKNOWN_API_VERSION"]
+            ok = len(ut) == 1 and len(at) == 1 and c.dominated_by_branch(ut[0], "T", b) and c.dominated_by_branch(at[0], "T", b) and a0 == "self._CLASSES[0]"
+            ctx.ob(R, fi, b, ok, "a struct is built without consulting the broker's range (allowed only for ALLOW_UNKNOWN_API_VERSION on an unknown key, lowest version)", text="unknown-key-build")
+    ut = [t for t in c.nodes if t.kind == "test" and isinstance(t.ast, ast.Compare) and isinstance(t.ast.ops[0], ast.NotIn) and unparse(t.ast.comparators[0]) == "versions"]
+    if ut:
+        tb = c.reachable([m for m, l in ut[0].succ if l == "T"], include_src=True)
+        ok = any(n.kind == "raise" and "IncompatibleBrokerVersion" in unparse(n.ast.exc) for n in tb) and rng not in tb
+        ctx.ob(R, fi, ut[0], ok, "an API key the broker did not advertise does not raise IncompatibleBrokerVersion", text="unknown-key-raises")
+    ok = c.exit not in c.reachable([rng], avoid=[n for n in c.nodes if n.kind == "return"], exc=False)
+    ctx.ob(R, fi, fi.node, ok, "prepare() can return None when no version is in range", text="no-match-raises")
+
+
 def rule_select(ctx):
     R = "select"
     ctx.rep.rule(R, "Request.prepare: every struct it builds after the version lookup satisfies min <= API_VERSION <= max of the broker's "
@@ -164,6 +218,13 @@ def rule_select(ctx):
     c = ctx.cfg(fi)
     builds = c.calls(attr="build")
     ctx.floor(builds, 2, "self.build(...) calls in prepare")
+    # the scan over the known struct classes may live in prepare() itself or in a helper it calls
+    chooser = None
+    for q, f in ctx.repo.funcs.items():
+        if q.startswith("aiokafka.protocol.api.Request.") and f is not fi and any(isinstance(n, ast.For) and unparse(n.iter) == "reversed(self._CLASSES)" for n in ast.walk(f.node)):
+            chooser = f
+    if chooser is not None and not any(isinstance(n, ast.For) for n in ast.walk(fi.node)):
+        return _select_via_helper(ctx, R, fi, c, builds, chooser)
     rng = [d for d in c.nodes if d.kind == "stmt" and isinstance(d.ast, ast.Assign) and isinstance(d.ast.targets[0], ast.Tuple) and unparse(d.ast.value) == "versions[api_key]"]
     rng = ctx.one(rng, "min_version, max_version = versions[api_key]")
     mn, mx = [unparse(x) for x in rng.ast.targets[0].elts]
